@@ -191,8 +191,9 @@ var allModels = []interface{}{&Region{}, &Company{}, &Office{}, &Owner{}, &Profi
 var tables = []string{"owner_tags", "notes", "parts", "items", "profiles", "offices", "owners", "companies", "tags", "audits", "regions"}
 
 var (
-	ddlOnce sync.Once
-	ddl     string
+	ddlOnce   sync.Once
+	ddl       string
+	auditsDDL string // re-creates the audits table (a migration operation may have added a column)
 )
 
 // schemaDDL captures, once per process, the CREATE statements AutoMigrate
@@ -209,6 +210,9 @@ func schemaDDL() string {
 		for _, e := range d.Rec.Events() {
 			if e.Kind == recdrv.Exec && strings.HasPrefix(strings.ToUpper(strings.TrimSpace(e.Text)), "CREATE") {
 				parts = append(parts, e.Text)
+				if strings.Contains(e.Text, "`audits`") {
+					auditsDDL += e.Text + ";\n"
+				}
 			}
 		}
 		ddl = strings.Join(parts, ";\n")
@@ -236,6 +240,8 @@ func reseed(d *testdb.DB) error {
 		sb.WriteString("DELETE FROM " + t + ";\n")
 	}
 	sb.WriteString("DROP TABLE IF EXISTS gadgets;\n")
+	schemaDDL()
+	sb.WriteString("DROP TABLE IF EXISTS audits;\n" + auditsDDL)
 	sb.WriteString("DELETE FROM sqlite_sequence;\n")
 	sb.WriteString(seedSQL)
 	_, err := d.SQL.Exec(sb.String())
@@ -1438,7 +1444,7 @@ func genOp(rt *rapid.T, txNone, oneUse bool) Op {
 
 func genCase(rt *rapid.T) Case {
 	c := Case{}
-	c.Bind = rapid.SampledFrom([]string{"withcontext", "withcontext", "session", "session", "rebound-withcontext", "rebound-session", "session-initialized", "session-initialized-newdb"}).Draw(rt, "bind")
+	c.Bind = rapid.SampledFrom([]string{"withcontext", "withcontext", "withcontext", "session", "session", "session", "rebound-withcontext", "rebound-session", "session-initialized", "session-initialized-newdb"}).Draw(rt, "bind")
 	initialized := strings.HasPrefix(c.Bind, "session-initialized")
 	preps := []string{"off", "off", "off", "config", "config", "session-before", "session-after", "session-late"}
 	if strings.HasSuffix(c.Bind, "session") {
@@ -1963,6 +1969,8 @@ const rule = "C18: a program = handle bound by WithContext / Session{Context} (a
 	"PrepareStmt off / Config / Session{PrepareStmt} before, with, after the binding or on the innermost handle (optionally with the statement cache filled by the same program under another context), " +
 	"optionally a child handle forked from the bound or the innermost handle by Session{Context, Initialized, NewDB, PrepareStmt, SkipHooks in any mix} / WithContext with a context of its own (alive, or cancelled while the parent's lives; alive while the parent's is dead) or inheriting, used before / after the parent's part or not at all, each handle judged against its own context, " +
 	"the caller's context a plain value context or one with its own cancellation / timeout / far deadline, SkipDefaultTransaction on/off, none / Transaction blocks / manual Begin at depth 0..2 with levels committing or rolling back, hooks issuing a statement through their tx, " +
+	"Config / dialector switches (RETURNING on/off, DisableNestedTransaction, FullSaveAssociations, TranslateError, QueryFields, CreateBatchSize), plugin callbacks and a SetupJoinTable join model with a hook issuing statements, Session{Initialized} as the bound handle, derivations by Session{SkipHooks / SkipDefaultTransaction / DisableNestedTransaction / AllowGlobalUpdate+QueryFields}, Begin / Transaction with *sql.TxOptions, blocks that panic, explicit SavePoint / RollbackTo, " +
+	"Connection, AutoMigrate / Migrator().CreateTable+DropTable, Create from map / []map / []*T / with Select / Omit, Updates(map, also with a belongs-to value) / UpdateColumn(s), clause.Returning on Update / Delete, Delete by ids / conditions / nested Select, Scopes, handles passed as arguments (sub-query, Table sub-query, join condition; built from a handle bound to another context), InnerJoins, a preload through an embedded struct, Count-then-Find on one Session value, Find into maps, Raw().Rows()/Row(), association mode on a slice of owners, " +
 	"and 1-2 operations out of create / create-slice / CreateInBatches / Updates / Model.Update / Save (update, fallback, new, slice) with association graphs (belongs-to, has-one, has-many, nested, many2many, polymorphic; FullSaveAssociations), " +
 	"Delete with Select(associations), Find/First/Take/Last with Preload (single, nested, clause.Associations, conditions) and relation Joins, Association(name).Find/Count/Append/Replace/Delete/Clear, " +
 	"FindInBatches (with statements in the callback), Rows+ScanRows, Row, Scan, Pluck, Count, FirstOrCreate/FirstOrInit, Raw, Exec over a seeded family; " +
